@@ -276,6 +276,49 @@ Theorem C12_e2e_write_archive_serialize_fails : forall mc S p a loc S' r,
   write_archive mc S p a loc = (S', r) -> (forall f, BinFormat.serialize mc a <> Ok f) -> S' = S /\ r <> FOk tt.
 Proof. exact write_archive_serialize_fails. Qed.
 
+(* ---- histories of typed and byte-level calls (typed_run = iteration of typed_step, the function the correspondence runs) ---- *)
+(* along ANY history: configuration, language, number of layers and all layers but the last never change; layers stay directory trees *)
+Theorem C12_e2e_typed_run_lower_untouched : forall mc md os S,
+  let S' := typed_run mc md S os in
+  conf S' = conf S /\ lng S' = lng S /\ length (layers S') = length (layers S) /\ removelast (layers S') = removelast (layers S).
+Proof. exact typed_run_lower_untouched. Qed.
+Theorem C12_e2e_typed_run_wf : forall mc md os S, wf_fs S -> wf_fs (typed_run mc md S os).
+Proof. exact typed_run_wf. Qed.
+(* frame, for EVERY codec: a write - whatever it returns - that is not addressed to the location p addresses leaves read p unchanged *)
+Theorem C12_e2e_write_frame_read : forall compress decompress S q b locq S' r p loc s a,
+  fs_write compress S q b locq = (S', r) ->
+  fs_addr S p loc = FOk (s, a) ->
+  (forall s' qq trq, fs_addr S q locq = FOk (s', (qq, trq)) -> qq <> fst a) ->
+  fs_read decompress S' p loc = fs_read decompress S p loc.
+Proof. exact write_frame_read. Qed.
+(* [writes_elsewhere S pp o]: o is a read, or a (typed) write whose addressed location is not pp *)
+Theorem C12_e2e_writes_elsewhere_is : forall S pp o,
+  writes_elsewhere S pp o <->
+  match o with
+  | TWrite q _ l | TWriteArchive q _ l | TWriteText q _ l => forall s qq tr, fs_addr S q l = FOk (s, (qq, tr)) -> qq <> pp
+  | _ => True
+  end.
+Proof. intros S pp o. split; exact (fun H => H). Qed.
+(* along a history none of whose calls writes to the location p addresses, every reader returns what it returned before *)
+Theorem C12_e2e_typed_run_keeps_typed_reads : forall mc md md' os S p loc s a,
+  fs_addr S p loc = FOk (s, a) -> Forall (writes_elsewhere S (fst a)) os ->
+  let S' := typed_run mc md S os in
+  read_file md' S' p loc = read_file md' S p loc /\
+  read_archive md' S' p loc = read_archive md' S p loc /\
+  read_text_archive md' S' p loc = read_text_archive md' S p loc /\
+  read_arc md' S' p loc = read_arc md' S p loc /\
+  read_fe9_arc md' S' p loc = read_fe9_arc md' S p loc /\
+  (forall k, read_textures md' k S' p loc = read_textures md' k S p loc).
+Proof. exact typed_run_keeps_typed_reads. Qed.
+(* read-after-write THROUGH a history: write_archive, then any calls that do not write to the same location (writes elsewhere, typed or
+   not, succeeding or failing, and reads), then read_archive: the archive of C01's round trip *)
+Theorem C12_e2e_archive_round_trip_history : forall mc md S p loc a S1 os,
+  BinSerializeConforms.wf_archive a -> BinSerializeConforms.ser_bound a < 2 ^ 24 -> BinArchive.a_endian a = c_endian (conf S) ->
+  write_archive mc S p a loc = (S1, FOk tt) ->
+  (forall s pp tr, fs_addr S p loc = FOk (s, (pp, tr)) -> Forall (writes_elsewhere S pp) os) ->
+  exists a', read_archive md (typed_run mc md S1 os) p loc = FOk a' /\ same_archive a a'.
+Proof. exact e2e_archive_round_trip_history. Qed.
+
 (* ---- non-vacuity of the end-to-end statements (all by computation on the instantiated model) ---- *)
 Example C12_e2e_example_archive_hyp :
   fs_new [[]] EnglishNA FE10 = FOk ex_fe10 /\ BinSerializeConforms.wf_archive BinSerializeConforms.ex_archive /\
@@ -331,3 +374,13 @@ Example C12_e2e_example_ctpk :
   r = FOk tt /\
   read_ctpk_textures Wrapping S' p false = FOk (TexMap [([131;101;120], TexDecode.decoded ex_ctpk_tex)]).
 Proof. exact e2e_example_ctpk. Qed.
+(* a history: write_archive "a.cmp"; then write "b.bin", write_archive "d/c.cmp", a FAILING write "b.bin/x" (through a file), two reads *)
+Example C12_e2e_example_history_hyp :
+  forall s pp tr, fs_addr ex_fe10 ex_cmp false = FOk (s, (pp, tr)) -> Forall (writes_elsewhere ex_fe10 pp) ex_history.
+Proof. exact e2e_example_history_hyp. Qed.
+Example C12_e2e_example_history :
+  let '(S1, r) := write_archive Checked ex_fe10 ex_cmp BinSerializeConforms.ex_archive false in
+  r = FOk tt /\
+  exists a', read_archive Wrapping (typed_run Checked Wrapping S1 ex_history) ex_cmp false = FOk a' /\
+             same_archive BinSerializeConforms.ex_archive a'.
+Proof. exact e2e_example_history. Qed.
